@@ -1269,30 +1269,59 @@ def guarded_table(repo_root):
     max_count = None
     loop_inclusive = None
     base = None
+    # recognised by shape, not by the names of the locals: the retry loop `while <counter> <=|< <bound>`, the bound an int literal
+    # (assigned in guarded(), or an attribute set in __init__ from a literal or from a parameter with a literal default), and the
+    # back-off `B**<counter> + random.random()`
+    loops = [st for st in ast.walk(g) if isinstance(st, ast.While)]
+    if len(loops) != 1:
+        raise ValueError("guarded(): exactly one while loop expected")
+    t = loops[0].test
+    ok = (isinstance(t, ast.Compare) and len(t.ops) == 1 and isinstance(t.left, ast.Name) and isinstance(t.ops[0], (ast.LtE, ast.Lt))
+          and isinstance(t.comparators[0], (ast.Name, ast.Attribute)))
+    if not ok:
+        raise ValueError("while condition is not `<counter> <=|< <bound>`")
+    counter = t.left.id
+    loop_inclusive = isinstance(t.ops[0], ast.LtE)
+
+    def literal_of(expr, fn, depth=0):
+        """the int literal an expression stands for: a constant, a local assigned once from such an expression, `self.x` assigned in
+        __init__, or a parameter of __init__ with a literal default"""
+        if depth > 4:
+            return None
+        if isinstance(expr, ast.Constant) and isinstance(expr.value, int) and not isinstance(expr.value, bool):
+            return expr.value
+        if isinstance(expr, ast.Name):
+            assigns = [st for st in ast.walk(fn) if isinstance(st, ast.Assign) and len(st.targets) == 1 and isinstance(st.targets[0], ast.Name)
+                       and st.targets[0].id == expr.id]
+            if len(assigns) == 1:
+                return literal_of(assigns[0].value, fn, depth + 1)
+            if not assigns:
+                a = fn.args
+                params = a.args + a.kwonlyargs
+                defaults = [None] * (len(a.args) - len(a.defaults)) + list(a.defaults) + list(a.kw_defaults)
+                for prm, dflt in zip(params, defaults):
+                    if prm.arg == expr.id and dflt is not None:
+                        return literal_of(dflt, fn, depth + 1)
+            return None
+        if isinstance(expr, ast.Attribute) and isinstance(expr.value, ast.Name) and expr.value.id == "self":
+            init = fns["__init__"]
+            assigns = [st for st in ast.walk(init) if isinstance(st, ast.Assign) and len(st.targets) == 1 and isinstance(st.targets[0], ast.Attribute)
+                       and ast.unparse(st.targets[0]) == ast.unparse(expr)]
+            if len(assigns) == 1:
+                return literal_of(assigns[0].value, init, depth + 1)
+        return None
+
+    max_count = literal_of(t.comparators[0], g)
+    if max_count is None:
+        raise ValueError("the bound of the retry loop is not an int literal (directly, via a local, or via __init__)")
     for st in ast.walk(g):
-        if isinstance(st, ast.Assign) and len(st.targets) == 1 and isinstance(st.targets[0], ast.Name):
-            t = st.targets[0].id
-            if t == "max_execution_count":
-                if not (isinstance(st.value, ast.Constant) and isinstance(st.value.value, int)):
-                    raise ValueError("max_execution_count is not an int literal")
-                max_count = st.value.value
-            if t == "time_to_sleep":
-                v = st.value
-                ok = (isinstance(v, ast.BinOp) and isinstance(v.op, ast.Add) and isinstance(v.left, ast.BinOp) and isinstance(v.left.op, ast.Pow)
-                      and isinstance(v.left.left, ast.Constant) and isinstance(v.left.left.value, int) and isinstance(v.left.right, ast.Name)
-                      and v.left.right.id == "execution_count" and isinstance(v.right, ast.Call) and ast.unparse(v.right) == "random.random()")
-                if not ok:
-                    raise ValueError("time_to_sleep is not `B**execution_count + random.random()`")
-                base = v.left.left.value
-        if isinstance(st, ast.While):
-            t = st.test
-            ok = (isinstance(t, ast.Compare) and len(t.ops) == 1 and isinstance(t.left, ast.Name) and t.left.id == "execution_count"
-                  and isinstance(t.comparators[0], ast.Name) and t.comparators[0].id == "max_execution_count")
-            if not ok or not isinstance(t.ops[0], (ast.LtE, ast.Lt)):
-                raise ValueError("while condition is not `execution_count <=|< max_execution_count`")
-            loop_inclusive = isinstance(t.ops[0], ast.LtE)
-    if max_count is None or loop_inclusive is None or base is None:
-        raise ValueError("guarded(): max_execution_count / while / time_to_sleep not recognised")
+        v = st
+        if (isinstance(v, ast.BinOp) and isinstance(v.op, ast.Add) and isinstance(v.left, ast.BinOp) and isinstance(v.left.op, ast.Pow)
+                and isinstance(v.left.left, ast.Constant) and isinstance(v.left.left.value, int) and isinstance(v.left.right, ast.Name)
+                and v.left.right.id == counter and isinstance(v.right, ast.Call) and ast.unparse(v.right) == "random.random()"):
+            base = v.left.left.value
+    if base is None:
+        raise ValueError("guarded(): back-off `B**<counter> + random.random()` not recognised")
     # methods
     names = sorted(n for n in fns if not n.startswith("_") and n != "guarded")
     rows = []
